@@ -326,6 +326,9 @@ CONFS = {
     'mode-mismatch': dict(b_entry=dict(mode='tunnel')),
     'psk-mismatch': dict(b_over=dict(peer_auth={"id": "alice@openikev2", "psk": "wrong"})),
     'ike-dh-preference': dict(a_over=dict(dh=['ecp384', 'ecp256'])),
+    # the responder demands a cookie first (and the DH guess is wrong as well): what was in the clear in IKE_SA_INIT stays there
+    'cookie': dict(_cookie=True),
+    'cookie+ike-dh-preference': dict(_cookie=True, a_over=dict(dh=['ecp384', 'ecp256'])),
     # the responder picks something else than the first transform of each type the initiator lists
     'ike-suite-preference': dict(a_over=dict(integ=['sha512', 'sha1'], encr=['aes256', 'aes128'], prf=['sha512', 'sha1']),
                                  b_over=dict(integ=['sha1'], encr=['aes128'], prf=['sha1'])),
@@ -334,6 +337,15 @@ CONFS = {
     'sha512': dict(a_over=dict(integ=['sha512']), b_over=dict(integ=['sha512'])),
 }
 ICV2INTEG = {12: 2, 16: 12, 32: 14}
+
+
+def conf_world(conf):
+    kw = {k: v for k, v in CONFS[conf].items() if not k.startswith('_')}
+    w = S.new_world(S.base_confs(**kw))
+    if CONFS[conf].get('_cookie'):
+        for ep in w.endpoints.values():
+            ep.controller.cookie_threshold = -1
+    return w
 
 
 def harvest(w, keys):
@@ -431,7 +443,7 @@ def inspect(d, keys):
 
 def run_history(conf, initiator, hist):
     keys = {}
-    w = S.new_world(S.base_confs(**CONFS[conf]))
+    w = conf_world(conf)
     w.sent_log = []
     step(w, ('acquire', initiator, 0, 0), keys)
     step(w, 'deliver', keys)
@@ -447,7 +459,7 @@ def unit_emission(u):
     raw, seen, n_hist = [], set(), 0
     outcomes, inspected = {}, set()
     keys0 = {}
-    w0 = S.new_world(S.base_confs(**CONFS[conf]))
+    w0 = conf_world(conf)
     w0.sent_log = []
     step(w0, ('acquire', initiator, 0, 0), keys0)
     step(w0, 'deliver', keys0)
